@@ -1,5 +1,111 @@
-"""Matchers and witnesses for known findings (see /verif/known_findings.txt and DESIGN.md section 5)."""
-from __future__ import annotations
+"""Matchers and witnesses for known findings (see /verif/known_findings.txt and DESIGN.md section 5).
 
-# (property id, finding id) -> callable returning a truthy value while the witness still fails
-WITNESS = {}
+KF1  NthRoot(NthPower(u, m), n) => NthPower(NthRoot(u, n), m) fires for m and n both even, where it
+     shrinks the domain (u < 0) and, after the follow-up rule, changes the value.
+     Attribution is by *call site*: a failure is attributed to KF1 only if it disappears when exactly
+     that rule instance (both parameters even) is suppressed in-process and nothing else changes.
+KF2  shape of a step-budget-exhausted result depends on memo flags of shared operand nodes.
+     Attribution: the library's own budget warning fired during the compared operation and the two
+     results agree in value.
+"""
+from __future__ import annotations
+import contextlib
+from . import known
+
+
+@contextlib.contextmanager
+def kf1_suppressed():
+    """Suppresses exactly the both-even instance of the root-of-power rule (harness-side monkeypatch,
+    restored on exit).  Yields False if the rule cannot be located (then nothing is attributed)."""
+    import smoothmath.expression as sx
+    cls = sx.NthRoot
+    name = "_reduce_nth_root_of_mth_power"
+    orig = cls.__dict__.get(name)
+    if orig is None:
+        yield False
+        return
+
+    def guarded(self):
+        inner = self._inner
+        if isinstance(inner, sx.NthPower) and self.n % 2 == 0 and inner.n % 2 == 0:
+            return None
+        return orig(self)
+    setattr(cls, name, guarded)
+    try:
+        yield True
+    finally:
+        setattr(cls, name, orig)
+
+
+def attributable_to_kf1(prop_id, still_fails):
+    """still_fails: thunk re-running the failing sub-check from scratch, True if it fails.
+    Returns True iff KF1 is listed for prop_id and the failure vanishes under suppression."""
+    if not known.listed(prop_id, "KF1"):
+        return False
+    with kf1_suppressed() as ok:
+        if not ok:
+            return False
+        try:
+            return not still_fails()
+        except Exception:  # noqa: cannot attribute -> report
+            return False
+
+
+# ---------------------------------------------------------------------------------------------
+# witnesses: return a truthy value while the finding still reproduces on the current tree
+
+def _kf1_c08():
+    import smoothmath.expression as sx
+    e = sx.NthRoot(sx.NthPower(sx.Variable("x"), 2), 2)
+    before = e.at(-3)
+    after = e._normalize()
+    try:
+        return after.at(-3) != before
+    except Exception:  # noqa
+        return True
+
+
+def _kf1_c05():
+    import smoothmath.expression as sx
+    from smoothmath import Derivative
+    e = sx.NthRoot(sx.NthPower(sx.Variable("x"), 2), 2)        # |x|, derivative -1 at x = -3
+    try:
+        return Derivative(e).as_expression().at(-3) != -1.0
+    except Exception:  # noqa
+        return True
+
+
+def _kf1_c06():
+    import smoothmath.expression as sx
+    from smoothmath import Derivative
+    e = sx.NthRoot(sx.NthPower(sx.Variable("x"), 2), 2)
+    try:
+        return Derivative(e).at(-3) != Derivative(e, compute_early=True).at(-3)
+    except Exception:  # noqa
+        return True
+
+
+def _kf1_c07():
+    import smoothmath.expression as sx
+    from smoothmath import Derivative, DomainError
+    # sqrt(x^2) * sqrt(x^2) ... derivative of NthRoot(NthPower(x,2),4) simplifies through NthRoot(x, 4)
+    e = sx.NthRoot(sx.NthPower(sx.Variable("x"), 2), 4)
+    try:
+        e.at(-3)
+    except Exception:  # noqa
+        return False
+    try:
+        Derivative(e, compute_early=True).at(-3)
+        return False
+    except DomainError:
+        return True
+    except Exception:  # noqa
+        return True
+
+
+WITNESS = {
+    ("C08", "KF1"): _kf1_c08,
+    ("C05", "KF1"): _kf1_c05,
+    ("C06", "KF1"): _kf1_c06,
+    ("C07", "KF1"): _kf1_c07,
+}
